@@ -4433,6 +4433,8 @@ def SIR_compact_effective_degree(Skappa0, I0, R0, SI0, tau, gamma, tmin=0,
 
         **R** number recovered
 
+        **Skappa** S_kappa at each time in times
+
         **SI** S_{s,i} 
             number of SI edges
     '''
@@ -4507,6 +4509,8 @@ def SIR_compact_effective_degree_from_graph(G, tau, gamma, initial_infecteds=Non
         **I** number infected
 
         **R** number recovered
+
+        **Skappa** S_kappa at each time in times
 
         **SI** S_{s,i} 
             number of SI edges
